@@ -4,6 +4,7 @@ mod common;
 mod obs;
 mod gen;
 mod c01;
+mod c06;
 mod c10;
 mod c12;
 mod c13;
@@ -33,6 +34,7 @@ fn main() {
             #[cfg(feature = "rv")]
             c19::run(&mut sink, thorough, seed);
         }
+        "C06" => c06::run(&mut sink, thorough, seed),
         "C10" => c10::run(&mut sink, thorough, seed),
         "C12" => c12::run(&mut sink, thorough, seed),
         "C13" => c13::run(&mut sink, thorough, seed),
@@ -61,6 +63,7 @@ fn replay(sink: &mut common::Sink, toks: &[&str]) {
         "ptr" | "ptrmut" | "pidx" => c18::replay(sink, toks),
         "pv" | "pi" => c01::replay(sink, toks),
         "pfx" => c10::replay(sink, toks),
+        "int" | "acc" | "iprint" => c06::replay(sink, toks),
         "stream" => c12::replay(sink, toks),
         "rfault" | "rfaultt" | "sfault" | "wfault" => c13::replay(sink, toks),
         #[cfg(feature = "rv")]
